@@ -232,13 +232,38 @@ def _counter_steps(f, body, i):
             elif rv[0] == "bin" and rv[1] in ("Add", "Sub", "AddUnchecked", "SubUnchecked") and op_local(rv[2]) == i and op_const(rv[3]) is not None:
                 ok = True
                 dirs.add("Add" if rv[1].startswith("Add") else "Sub")
+            weak = False
+            if not ok and rv[0] == "use" and op_local(rv[1]) is not None and not place_projs(op_place(rv[1])):
+                # `i = i.saturating_sub(1)`: a step that stands still at the boundary.  It is progress only behind a test of `i`
+                # that leaves the loop there (`if i == 0 { break }` first); otherwise the way round through it may change nothing
+                for d in f.whole_defs(op_local(rv[1])):
+                    if d[0] == "call" and re.search(r"::saturating_(sub|add)$", d[2].get("res") or "") and d[2]["args"] \
+                            and op_local(d[2]["args"][0]) is not None and _copy_of(f, op_local(d[2]["args"][0])) == i:
+                        weak = True
+                        dirs.add("Sub" if d[2]["res"].endswith("sub") else "Add")
+                        if _exit_test_dominates(f, body, i, b):
+                            ok = True
             if ok:
                 steps.add(b)
-            else:
+            elif not weak:
                 other = True
     if other:
         return set(), set()
     return steps, dirs
+
+
+def _exit_test_dominates(f, body, i, b):
+    dom = f.dominators().get(b, set())
+    for sb, l in _exit_switches(f, body):
+        if l is None or sb not in dom:
+            continue
+        for d in f.whole_defs(l):
+            if d[0] == "assign" and d[3][0] == "bin" and d[3][1] in ("Eq", "Ne", "Lt", "Le", "Gt", "Ge"):
+                for o in (d[3][2], d[3][3]):
+                    ol = op_local(o)
+                    if ol is not None and (ol == i or _copy_of(f, ol) == i):
+                        return True
+    return False
 
 
 def _controls_exit(f, body, i):
